@@ -258,6 +258,43 @@ func runC12_4(c *core.Ctx) {
 				continue
 			}
 			rootVar, _ := path.Root.(*types.Var)
+			// a deferred Put runs when the function returns: whatever the function hands back must not be made of
+			// the memory it gives away (a string view or a re-slice of the pooled buffer)
+			deferred := false
+			ast.Inspect(f.Decl.Body, func(x ast.Node) bool {
+				if d, ok := x.(*ast.DeferStmt); ok {
+					ast.Inspect(d, func(y ast.Node) bool {
+						if y == ast.Node(put) {
+							deferred = true
+						}
+						return true
+					})
+				}
+				return true
+			})
+			if deferred && rootVar != nil && path.Sel == "" {
+				var bad token.Pos
+				ast.Inspect(f.Decl.Body, func(x ast.Node) bool {
+					if _, isLit := x.(*ast.FuncLit); isLit {
+						return false
+					}
+					if r, ok := x.(*ast.ReturnStmt); ok {
+						for _, res := range r.Results {
+							ast.Inspect(res, func(y ast.Node) bool {
+								if id, ok := y.(*ast.Ident); ok && f.Info.Uses[id] == types.Object(rootVar) && bad == token.NoPos {
+									bad = r.Pos()
+								}
+								return true
+							})
+						}
+					}
+					return true
+				})
+				if bad != token.NoPos {
+					c.Violate(f.Name, construct, bad, "the value returned here is made of "+exprStr(arg)+", which the deferred Put hands to the pool at this very return: the caller holds a view of memory that now belongs to the pool and is overwritten by the next Get of its size class")
+					continue
+				}
+			}
 			fieldHolder := path.Sel != "" && rootVar != nil && (rootVar == f.recvVar()) // rb.buf, c.cache, b.rb
 			const (
 				sLive = iota
